@@ -16,7 +16,15 @@ Tie to the source:
   (3) an independent oracle judges the PROPERTY on the implementation's output: a reported state
       of a stable network must be within cond(V)*rho*(tol+slack) of the analytic steady state and
       its reported fluxes must balance on that scale; a network without steady state must be
-      reported as failure unless its closed-form change per step really is below the tolerance.
+      reported as failure unless its closed-form change per step really is below the tolerance;
+  (4) HISTORIES of one Simulator (harness/c15_hist.py): simulate / simulate_time_course / simulate_to_steady_state
+      in sequence (with integration failures injected into some steps), then get_result: the oracle demands a
+      failure value whenever any step failed or the search cannot converge, and the searched steady state in the
+      last row otherwise; what the integrator returned in every call is recorded and the Gallina history model
+      (`hist_result gen_plumb_facts`) must reproduce get_result exactly (rows and error kind);
+  (5) RECORDED RUNS: the buffers scipy's solver really returned and its `successful()` flags are handed to
+      `ss_run_s gen_ss_facts` (exact rationals of the floats) and the outcome must equal the implementation's --
+      also for solvers that FAIL (dx/dt = k x^2, dx/dt = k/(1-x): no solution beyond a finite time).
 """
 
 from __future__ import annotations
@@ -27,7 +35,7 @@ import signal
 from fractions import Fraction
 from typing import Any
 
-from harness import common
+from harness import c15_hist, common
 from harness.common import Run, clist, cq
 
 AREA = "steady"
@@ -97,6 +105,7 @@ _COPY_NEW = {
 }
 _ALIAS_NEW = {"integ.integrate(t)", "np.asarray(integ.integrate(t))", "np.asarray(integ.integrate(t), dtype=float)"}
 _COPY_PREV = {"y2.copy()", "np.array(y2)", "np.array(y2, dtype=float)", "np.copy(y2)", "copy.deepcopy(y2)", "copy.copy(y2)"}
+_SUCC_CHECK = "if not integ.successful():\n    return Result(IntegrationFailure())"
 _RETURN_OK = "return Result(TimeCourse(time=np.array([t], dtype=float), values=np.array([y2], dtype=float)))"
 
 _TEMPLATES = {
@@ -158,6 +167,39 @@ _WORKER_TEMPLATES = {
 }
 
 
+def _sim_methods_ok() -> bool:
+    """simulate / simulate_time_course as the history model needs them: they start with the early return on recorded
+    errors, hand exactly one integrator result to _handle_simulation_results(..., skipfirst=True) and return self.
+    (Time bookkeeping in between is property C04/C14's business and deliberately not pinned here.)"""
+    try:
+        tree = ast.parse((common.REPO / "src/mxlpy/simulator.py").read_text())
+    except (OSError, SyntaxError):
+        return False
+    for name, call in (("simulate", "self.integrator.integrate(t_end=t_end, steps=steps)"),
+                       ("simulate_time_course", "self.integrator.integrate_time_course(time_points=time_points)")):
+        fn = _find(tree, "Simulator", name)
+        if fn is None:
+            return False
+        body = _body(fn)
+        if len(body) < 3 or ast.unparse(body[0]) != "if len(self._errors) > 0:\n    return self":
+            return False
+        if ast.unparse(body[-1]) != "return self":
+            return False
+        handles = [n for n in ast.walk(fn) if isinstance(n, ast.Call) and ast.unparse(n.func) == "self._handle_simulation_results"]
+        want = f"self._handle_simulation_results({call}, skipfirst=True)"
+        if len(handles) != 1 or ast.unparse(body[-2]) != want:
+            return False
+        # nothing else may touch the error list or the stored frames
+        for n in ast.walk(fn):
+            if isinstance(n, (ast.Assign, ast.AugAssign, ast.AnnAssign)):
+                tg = n.targets if isinstance(n, ast.Assign) else [n.target]
+                if any(ast.unparse(t).startswith(("self._errors", "self.variables")) for t in tg):
+                    return False
+            if isinstance(n, ast.Call) and ast.unparse(n.func).startswith(("self._errors.", "self.variables.")):
+                return False
+    return True
+
+
 def _templates_ok(templates: dict) -> bool:
     trees: dict[str, ast.Module] = {}
     for (f, cls, name), want in templates.items():
@@ -174,7 +216,7 @@ def _templates_ok(templates: dict) -> bool:
 def extract_facts() -> dict[str, Any]:
     facts: dict[str, Any] = {
         "step": 0, "max_steps": 0, "cmp": "CmpUnknown", "norm": "NormUnknown", "prev": "PrevUnknown",
-        "rel": "RelUnknown", "exhaust": "ExhaustUnknown", "shape_ok": False,
+        "rel": "RelUnknown", "exhaust": "ExhaustUnknown", "succ": "SuccUnknown", "shape_ok": False,
         "sim_ok": False, "worker_ok": False, "default_tol": None,
     }
     try:
@@ -206,9 +248,12 @@ def extract_facts() -> dict[str, Any]:
         and ast.unparse(loop.target) == "_"
         and ast.unparse(loop.iter) == "range(max_steps)"
         and not loop.orelse
-        and len(loop.body) == 5
+        and len(loop.body) in (5, 6)
+        and (len(loop.body) == 5 or ast.unparse(loop.body[1]) == _SUCC_CHECK)
     ):
-        s0, s1, s2, s3, s4 = loop.body
+        # the test of integ.successful() directly after the integration step (fixes/C15-integrator-failure.diff)
+        facts["succ"] = "SuccChecked" if len(loop.body) == 6 else "SuccUnchecked"
+        s0, s1, s2, s3, s4 = [loop.body[0], *loop.body[-4:]]
         new_kind = prev_kind = None
         if isinstance(s0, ast.Assign) and ast.unparse(s0.targets[0]) == "y2" and len(s0.targets) == 1:
             v = ast.unparse(s0.value)
@@ -238,7 +283,7 @@ def extract_facts() -> dict[str, Any]:
     if len(body) == len(_PRE) + 2 and ast.unparse(body[-1]) == "return Result(NoSteadyState())":
         facts["exhaust"] = "ExhaustFail"
     facts["shape_ok"] = shape_ok and _templates_ok(_TEMPLATES)
-    facts["sim_ok"] = _templates_ok(_SIM_TEMPLATES)
+    facts["sim_ok"] = _templates_ok(_SIM_TEMPLATES) and _sim_methods_ok()
     facts["worker_ok"] = _templates_ok(_WORKER_TEMPLATES)
     # default tolerance of Simulator.simulate_to_steady_state (what the scan worker uses)
     try:
@@ -261,7 +306,7 @@ def gen() -> dict[str, Any]:
         "   An unrecognised shape yields a *Unknown constructor / false, which breaks C15_facts_pinned. *)\n"
         "From Coq Require Import QArith ZArith NArith.\n"
         "From Steady Require Import SteadyLoop.\n"
-        f"Definition gen_ss_facts : ss_facts :=\n  mkSSFacts {int(f['step'])}%Z {int(f['max_steps'])}%N {f['cmp']} {f['norm']} {f['prev']} {f['rel']} {f['exhaust']} "
+        f"Definition gen_ss_facts : ss_facts :=\n  mkSSFacts {int(f['step'])}%Z {int(f['max_steps'])}%N {f['cmp']} {f['norm']} {f['prev']} {f['rel']} {f['exhaust']} {f['succ']} "
         f"{common.cbool(bool(f['shape_ok']))}.\n"
         f"Definition gen_plumb_facts : plumb_facts :=\n  mkPlumb {common.cbool(bool(f['sim_ok']))} {common.cbool(bool(f['worker_ok']))} {cq(tol)}.\n"
     )
@@ -561,12 +606,15 @@ def run_impl(net: dict, tol: float, rel: bool, with_worker: bool = False) -> dic
     try:
         m = build_model(net)
         y0 = {f"x{i}": float(v) for i, v in enumerate(net["y0"])} if net["user_y0"] else None
-        with np.errstate(all="ignore"):
+        with c15_hist.OdeSpy() as spy, np.errstate(all="ignore"):
             res = Simulator(m, y0=y0).simulate_to_steady_state(tolerance=tol, rel_norm=rel).get_result()
+        steps = spy.steps
         v = res.value
         if isinstance(v, Exception):
             # any exception wrapped in the Result is a failure value; only NoSteadyState is the modelled one
-            out = {"kind": "NoSteady"} if type(v).__name__ == "NoSteadyState" else {"kind": "OtherFailure:" + type(v).__name__}
+            out = ({"kind": "NoSteady"} if type(v).__name__ == "NoSteadyState"
+                   else {"kind": "IntegFail"} if type(v).__name__ == "IntegrationFailure"
+                   else {"kind": "OtherFailure:" + type(v).__name__})
         else:
             frames = v.raw_variables
             if len(frames) != 1 or frames[0].shape[0] != 1:
@@ -580,6 +628,7 @@ def run_impl(net: dict, tol: float, rel: bool, with_worker: bool = False) -> dic
                     "y": [float(frames[0][nm].iloc[0]) for nm in names],
                     "fluxes": [float(fl[f"r{r}"].iloc[0]) for r in range(len(net["reactions"]))],
                 }
+        out["steps"] = steps
         if with_worker:
             from mxlpy.scan import _steady_state_worker
 
@@ -630,7 +679,7 @@ def oracle(net: dict, tol: float, rel: bool, out: dict, tr: dict) -> tuple[str, 
     'violation' or 'finding:c15-relnorm-accumulation'."""
     if out["kind"].startswith("Err"):
         return "violation", f"steady-state simulation ended with {out['kind']} {out.get('detail', '')}"
-    if out["kind"] == "NoSteady" or out["kind"].startswith("OtherFailure"):
+    if out["kind"] in ("NoSteady", "IntegFail") or out["kind"].startswith("OtherFailure"):
         return None  # a failure value is never a state presented as steady
     d = net["d"]
     y = out["y"]
@@ -735,6 +784,8 @@ def coq_case(idx: int, net: dict, tol: float, rel: bool, tr: dict, out: dict, fa
         obs = f"ObsSteady {cq(common.to_fraction(out['t']))}"
     elif out["kind"] == "NoSteady":
         obs = "ObsNoSteady"
+    elif out["kind"] == "IntegFail":
+        obs = "ObsIntegFail"
     else:
         obs = "ObsOther"
     row = "None" if "worker_nan" not in out else f"(Some {common.cbool(out['worker_nan'])})"
@@ -776,6 +827,22 @@ def finding_net(w: dict) -> dict:
 def replay_known(run: Run, max_steps: int) -> None:
     for f in common.load_known_findings("C15"):
         w = f.get("witness", {})
+        if "law" in w:
+            try:
+                spec = {"law": w["law"], "k": float(w["k"]), "x0": float(w["x0"])}
+                out = c15_hist.run_singular(spec, float(w["tolerance"]), bool(w["rel_norm"]))
+                verdict = c15_hist.singular_oracle(spec, out)
+                shown = {k: out[k] for k in out if k != "steps"}
+                if verdict is not None and verdict[0] == "finding:" + f["id"]:
+                    run.known(f["id"], f"{f['what_fails']} -- witness still reproduces: {spec}, tolerance={w['tolerance']}, rel_norm={w['rel_norm']} -> {shown}")
+                elif verdict is not None:
+                    run.violation(f"known-finding witness {f['id']} now fails differently: {verdict[1]}",
+                                  {"kind": "singular", "spec": spec, "tol": float(w["tolerance"]), "rel": bool(w["rel_norm"])})
+                else:
+                    run.note(f"known finding {f['id']} no longer reproduces (outcome {out['kind']}); run tools/c15_switch.py repaired <commit>")
+            except Exception as e:  # noqa: BLE001
+                run.note(f"could not replay known finding {f.get('id')}: {type(e).__name__}: {e}")
+            continue
         try:
             net = finding_net(w)
             tol, rel = float(w["tolerance"]), bool(w["rel_norm"])
@@ -783,7 +850,7 @@ def replay_known(run: Run, max_steps: int) -> None:
             tr = trajectory(net, tol, rel, max_steps)
             verdict = oracle(net, tol, rel, out, tr)
             if verdict is not None and verdict[0] == "finding:" + f["id"]:
-                run.known(f["id"], f"{f['what_fails']} -- witness still reproduces: dx/dt={w['influx']}, x0={w['y0']}, tolerance={tol}, rel_norm={rel} -> {out}")
+                run.known(f["id"], f"{f['what_fails']} -- witness still reproduces: dx/dt={w['influx']}, x0={w['y0']}, tolerance={tol}, rel_norm={rel} -> { {k: out[k] for k in out if k != 'steps'} }")
             elif verdict is not None:
                 run.violation(f"known-finding witness {f['id']} now fails differently: {verdict[1]}", {"kind": "case", "net": net, "tol": tol, "rel": rel})
             else:
@@ -844,11 +911,16 @@ def check(run: Run) -> None:
         "relative norm; values are scaled with the tolerance so that LSODA's error (rtol 1e-6) cannot flip a decision. A case is "
         "non-trivial if the closed-form trajectory needs >= 2 loop steps or ends in failure; distinct by content. Cases whose "
         "decision is within 50 integration-error units of the threshold are excluded from the exact comparison (counted as borderline) "
-        "but still judged by the oracle."
+        "but still judged by the oracle. HISTORIES: 2-3 operations simulate / simulate_time_course / simulate_to_steady_state on one "
+        "Simulator (half of the networks without steady state; integration failures injected into some simulate steps), then "
+        "get_result; non-trivial = at least two operations. SINGULAR: dx/dt = k x^2 and k/(1-x), whose solution stops existing before "
+        "or during the search (the solver fails). RECORDED RUNS: every search above whose binary64 norm decisions are not within 1e-9 "
+        "of the tolerance is replayed through the Gallina loop on the solver's own buffers and success flags."
     )
     proofs_ok = run.check_proofs(AREA, PROPS)
     run.assumptions += [
         "Coq 8.16.1 kernel + vm_compute; loop/accumulation/alias/plumbing theorems are closed under the global context; "
+        "integrator-failure and history theorems likewise closed; "
         "the norm/distance theorems use Coq.Reals (ClassicalDedekindReals.sig_forall_dec, sig_not_dec, "
         "FunctionalExtensionality.functional_extensionality_dep, Classical_Prop.classic)",
         "the ODE solver (scipy LSODA) is NOT modelled: the loop is proved over an abstract sampled trajectory; that the solver's "
@@ -857,13 +929,23 @@ def check(run: Run) -> None:
         "binary64 evaluation of norm/subtraction/division is modelled by exact rational arithmetic; overflow/underflow are outside the model",
         "correspondence harness: mpmath closed form (50 digits, samples rounded to 2^-32 relative), literal printer, coqc output parser",
         "oracle constants: integration error per sample <= 320 * (1e-6*max|y_i| + 1e-12) (100 x worst observed)",
+        "what each integrator call returns inside a history, and the buffers/success flags of scipy.integrate.ode.integrate, are "
+        "inputs of the model (external behaviour) recorded by wrappers in harness/c15_hist.py (trusted glue); the history model has "
+        "no update_variable/_time_shift, no protocols, no raising calls",
+        "coq/steady/ExpectedFacts.v is a hand-edited switch (expected form of the integ.successful() test), kept consistent with "
+        "known_findings.d/C15.json by tools/c15_switch.py",
     ]
     step = int(facts["step"]) or STEP
     max_steps = int(facts["max_steps"]) or 1000
     sim_steps = min(max(max_steps, 1), 1000)  # the closed form is sampled with the PROPERTY's budget
 
     rng = common.rng_for(run.seed, "c15")
-    n_cases = 2600 if thorough else 420
+    n_cases = 2600 if thorough else 400
+    known_ids = {f.get("id") for f in common.load_known_findings("C15")}
+    rec_defs: list[tuple[str, str]] = []  # (description, Coq text) of recorded runs
+    max_rec = 1500 if thorough else 260
+    max_rec_long = 12 if thorough else 3
+    n_rec_long = 0
     max_long_lists = 60 if thorough else 14  # failing non-linear-accumulation cases need 1001 explicit samples
     cases = list(corpus_cases())
     while len(cases) < n_cases:
@@ -885,7 +967,19 @@ def check(run: Run) -> None:
         tr = trajectory(net, tol, rel, sim_steps, step)
         with_worker = dflt_tol is not None and repr(tol) == dflt_tol
         out = run_impl(net, tol, rel, with_worker=with_worker)
+        steps = out.pop("steps", [])
         records.append((net, tol, rel, out))
+        # (5) recorded run: the solver's own buffers + success flags through the Gallina loop
+        if steps and not out["kind"].startswith(("Err", "OtherFailure")) and len(rec_defs) < max_rec:
+            y0f = [float(v) for v in net["y0"]]
+            if c15_hist.float_decisions_robust(y0f, steps, tol, rel):
+                is_long = len(steps) > 60
+                if not is_long or n_rec_long < max_rec_long:
+                    n_rec_long += is_long
+                    rec_defs.append((f"case #{ci} kind={net['kind']} reactions={net['reactions']} y0={net['y0']} tol={tol} rel_norm={rel} impl={out['kind']}",
+                                     c15_hist.recorded_coq_case(0, y0f, steps, tol, rel, out["kind"], out.get("t"))))
+            else:
+                stats["recorded_float_borderline"] = stats.get("recorded_float_borderline", 0) + 1
         kinds[net["kind"]] = kinds.get(net["kind"], 0) + 1
         outcomes[out["kind"]] = outcomes.get(out["kind"], 0) + 1
         tol_hist[repr(tol)] = tol_hist.get(repr(tol), 0) + 1
@@ -900,7 +994,7 @@ def check(run: Run) -> None:
         verdict = oracle(net, tol, rel, out, tr)
         if verdict is not None:
             cls, what = verdict
-            if cls.startswith("finding:"):
+            if cls.startswith("finding:") and cls.split(":", 1)[1] in known_ids:
                 finding_hits += 1
             elif cls.startswith("undecided:"):
                 stats["oracle_undecided_border"] = stats.get("oracle_undecided_border", 0) + 1
@@ -925,7 +1019,91 @@ def check(run: Run) -> None:
         stats["worker_rows"] += "worker_nan" in out
         defs.append((ci, coq_case(len(defs), net, tol, rel, tr, out, step)))
         corr_index.append(ci)
+    # ---- (4) histories of one Simulator
+    hrng = common.rng_for(run.seed, "c15-hist")
+    n_hist = 330 if thorough else 64
+    hist_defs: list[tuple[str, str]] = []
+    hstats = {"histories": 0, "final_failure": 0, "final_success": 0, "injected_failure": 0, "search_without_steady_state": 0,
+              "search_after_simulation_without_steady_state": 0, "outside_model": 0}
+    hshapes: dict[str, int] = {}
+    for hi in range(n_hist):
+        want_no_ss = hi % 2 == 0
+        for _ in range(200):
+            net, tol, rel = gen_case(hrng)
+            if net["has_ss"] != want_no_ss and tol > 0:
+                break
+        if hi < 3:  # fixed first histories: the seeded-change shape on the accumulating corpus network
+            net, tol, rel = corpus_cases()[0]
+            hist = [[("sim", 10.0, 5, False), ("ss",)], [("tc", [1.0, 2.0, 3.0], False), ("ss",)],
+                    [("sim", 10.0, 2, True), ("ss",)]][hi]
+        else:
+            hist = c15_hist.gen_history(hrng, net)
+        tr = trajectory(net, tol, rel, sim_steps, step)
+        h = c15_hist.run_history(net, hist, tol, rel)
+        shape = "+".join(op[0] + ("!" if (op[0] != "ss" and op[-1]) else "") for op in hist)
+        hshapes[shape] = hshapes.get(shape, 0) + 1
+        hstats["histories"] += 1
+        injected = "!" in shape
+        no_conv = tr["decision"] is None and not tr["borderline"] and tol > 0
+        hstats["injected_failure"] += injected
+        hstats["search_without_steady_state"] += no_conv
+        hstats["search_after_simulation_without_steady_state"] += no_conv and hist[0][0] != "ss" and not injected
+        hstats["final_failure" if h.get("final") != "Success" else "final_success"] += 1
+        run.count_case(("hist", net["reactions"], net["y0"], net["user_y0"], tol, rel, hist), nontrivial=len(hist) >= 2)
+        if hi in (0, 5):
+            run.sample({"history": hist, "net": {k: net[k] for k in ("kind", "reactions", "y0", "user_y0")}, "tol": tol, "rel_norm": rel,
+                        "integrator_results": [{k: (r[k] if k not in ("time", "values") else r[k][-1]) for k in r} for r in h["ops"]],
+                        "get_result": h.get("final"), "last_row": (h.get("rows") or [None])[-1]})
+        verdict = c15_hist.history_oracle(net, hist, tol, rel, h, tr)
+        if verdict is not None:
+            cls, what = verdict
+            if cls.startswith("finding:") and cls.split(":", 1)[1] in known_ids:
+                finding_hits += 1
+            elif cls.startswith("undecided:"):
+                stats["oracle_undecided_border"] = stats.get("oracle_undecided_border", 0) + 1
+            elif n_viol < 6:
+                n_viol += 1
+                run.violation(what, {"kind": "history", "net": net, "tol": tol, "rel": rel, "hist": hist})
+        if not h["raised"]:
+            text = c15_hist.history_coq_case(0, h)
+            if text is None:
+                hstats["outside_model"] += 1
+            else:
+                hist_defs.append((f"history {hist} on kind={net['kind']} reactions={net['reactions']} y0={net['y0']} user_y0={net['user_y0']} "
+                                  f"tol={tol} rel_norm={rel}: get_result={h.get('final')}", text))
+
+    # ---- (c) solutions that stop existing: the solver fails, the search must not report success
+    srng = common.rng_for(run.seed, "c15-singular")
+    n_sing = 40 if thorough else 10
+    sstats = {"cases": 0, "reported_failure": 0, "reported_steady": 0, "solver_failed_steps": 0}
+    for si in range(n_sing):
+        spec = c15_hist.gen_singular(srng) if si else {"law": "quad", "k": 1.0, "x0": 1.0}
+        rel = srng.random() < 0.4
+        tol = srng.choice(TOLS_REL if rel else TOLS_ABS)
+        if si == 0:
+            rel, tol = False, 1e-6
+        out = c15_hist.run_singular(spec, tol, rel)
+        verdict = c15_hist.singular_oracle(spec, out)
+        steps = out.pop("steps", [])
+        sstats["cases"] += 1
+        sstats["solver_failed_steps"] += sum(1 for _, ok in steps if not ok)
+        sstats["reported_steady" if out["kind"] == "Steady" else "reported_failure"] += 1
+        run.count_case(("singular", spec["law"], spec["k"], spec["x0"], tol, rel), nontrivial=True)
+        if verdict is not None:
+            cls, what = verdict
+            if cls.startswith("finding:") and cls.split(":", 1)[1] in known_ids:
+                finding_hits += 1
+            elif n_viol < 6:
+                n_viol += 1
+                run.violation(what, {"kind": "singular", "spec": spec, "tol": tol, "rel": rel})
+        if steps and not out["kind"].startswith("Err") and c15_hist.float_decisions_robust([spec["x0"]], steps, tol, rel):
+            rec_defs.append((f"singular {spec} tol={tol} rel_norm={rel} impl={out['kind']}",
+                             c15_hist.recorded_coq_case(0, [spec["x0"]], steps, tol, rel, out["kind"], out.get("t"))))
+    stats["recorded_runs_compared"] = len(rec_defs)
+    stats["histories_compared"] = len(hist_defs)
+
     run.coverage["input_distribution"] = {
+        "history_stage": {**hstats, "shapes": hshapes}, "singular_stage": sstats,
         "network_kinds": kinds, "impl_outcomes": outcomes, "tolerances": tol_hist, **stats,
         "known_finding_family_hits": finding_hits,
     }
@@ -953,6 +1131,29 @@ def check(run: Run) -> None:
         if len(cur) >= 120 or cur_size > 120_000:
             flush()
     flush()
+    extra_desc: dict[str, list[str]] = {}
+
+    def pack(prefix: str, items: list[tuple[str, str]], tag: str, mk) -> None:  # noqa: ANN001
+        chunk: list[tuple[str, str]] = []
+        size = 0
+
+        def emit() -> None:
+            nonlocal chunk, size
+            if chunk:
+                name = f"{prefix}_{len(extra_desc):04d}"
+                files[name] = mk(["Definition %s_%d " % (tag, j) + text.split(" ", 2)[2] for j, (_d, text) in enumerate(chunk)])
+                extra_desc[name] = [d for d, _ in chunk]
+            chunk, size = [], 0
+
+        for d, text in items:
+            chunk.append((d, text))
+            size += len(text)
+            if len(chunk) >= 100 or size > 150_000:
+                emit()
+        emit()
+
+    pack("c15_hist", hist_defs, "hcase", c15_hist.history_corr_file)
+    pack("c15_rec", rec_defs, "rcase", c15_hist.recorded_corr_file)
     res = common.coq_eval_many(AREA, files, timeout_s=900)
     mism = 0
     for name in sorted(files):
@@ -960,6 +1161,14 @@ def check(run: Run) -> None:
         lists = common.parse_eval_list(outp) if ok else None
         if not ok or not lists:
             run.broken_correspondence.append(f"correspondence shard {name} did not evaluate: {outp[-300:]}")
+            continue
+        if name in extra_desc:
+            for j in lists[-1]:
+                mism += 1
+                if len(run.broken_correspondence) < 5:
+                    what = "history model (hist_result) and Simulator.get_result disagree" if name.startswith("c15_hist") else \
+                        "loop model (ss_run_s) on the solver's recorded buffers/success flags and the implementation disagree"
+                    run.broken_correspondence.append(f"{what}: {extra_desc[name][j]}")
             continue
         for j in lists[-1]:
             mism += 1
@@ -970,7 +1179,7 @@ def check(run: Run) -> None:
                     f"loop model and implementation disagree on case #{ci}: kind={net['kind']} reactions={net['reactions']} y0={net['y0']} "
                     f"user_y0={net['user_y0']} tol={tol} rel_norm={rel} impl={ {k: out[k] for k in out if k != 'fluxes'} }"
                 )
-    run.coverage["traces_validated_against_impl"] = stats["exact_compared"] - mism
+    run.coverage["traces_validated_against_impl"] = stats["exact_compared"] + len(hist_defs) + len(rec_defs) - mism
     run.coverage["correspondence_mismatches"] = mism
 
     # scan.steady_state rows (NaN for failures) through the public API
@@ -1031,6 +1240,34 @@ def replay(rep: dict) -> int:
         print("closed-form decision step:", tr["decision"], "borderline:", tr["borderline"])
         print("oracle:", verdict or "property holds on this input")
         return 1 if (verdict is not None and verdict[0] == "violation") else 0
+    if r.get("kind") == "history":
+        common.quiet_impl_logging()
+        net = r["net"]
+        net["reactions"] = [tuple(x) for x in net["reactions"]]
+        tol, rel = float(r["tol"]), bool(r["rel"])
+        hist = [tuple(op) for op in r["hist"]]
+        h = c15_hist.run_history(net, hist, tol, rel)
+        tr = trajectory(net, tol, rel, 1000)
+        verdict = c15_hist.history_oracle(net, hist, tol, rel, h, tr)
+        print("history:", hist)
+        print("integrator results per call:", [{k: (x[k] if k not in ("time", "values") else x[k][-1]) for k in x} for x in h["ops"]])
+        print("get_result:", h.get("final"), "last row:", (h.get("rows") or [None])[-1], "raised:", h["raised"])
+        print("closed-form decision step of the search:", tr["decision"], "borderline:", tr["borderline"])
+        print("oracle:", verdict or "property holds on this history")
+        return 1 if (verdict is not None and verdict[0] == "violation") else 0
+    if r.get("kind") == "singular":
+        common.quiet_impl_logging()
+        spec = r["spec"]
+        out = c15_hist.run_singular(spec, float(r["tol"]), bool(r["rel"]))
+        verdict = c15_hist.singular_oracle(spec, out)
+        steps = out.pop("steps", [])
+        print("implementation:", out)
+        print("solver steps (state, successful):", steps[:14])
+        print("oracle:", verdict or "property holds on this input")
+        known = {f.get("id") for f in common.load_known_findings("C15")}
+        if verdict is None:
+            return 0
+        return 0 if (verdict[0].startswith("finding:") and verdict[0].split(":", 1)[1] in known) else 1
     if r.get("kind") == "scan":
         class _R:  # minimal Run stand-in
             def __init__(self):
